@@ -66,12 +66,16 @@ def infer_redirection(url, recursive=True):
 
             # Basic relative url
             elif potential_target.startswith("/"):
-                if PROTOCOL_RE.match(url):
-                    target = urljoin(url, potential_target)
+                # NOTE: urljoin raises on a malformed authority, e.g. "http://[x"
+                try:
+                    if PROTOCOL_RE.match(url):
+                        target = urljoin(url, potential_target)
 
-                # NOTE: without a protocol, the host would be taken for a path
-                else:
-                    target = urljoin("http://" + url, potential_target)[7:]
+                    # NOTE: without a protocol, the host would be taken for a path
+                    else:
+                        target = urljoin("http://" + url, potential_target)[7:]
+                except ValueError:
+                    return url
 
             # Idiotic youtube redirections
             elif "youtube.com/redirect?" in url:
